@@ -144,6 +144,8 @@ type FuncVC struct {
 	splitTerm     string
 	callOrd       map[string]int
 	firedGhosts   map[*GhostClause]bool
+	groundDefs    map[string]bool
+	pendingDefs   []string
 	marked        map[string]bool
 	pendingMarks  []string
 	defs          map[string]string // named definitions (for canonical keys)
@@ -204,7 +206,18 @@ func (f *FuncVC) declareFun(name, sig string) {
 	f.decls = append(f.decls, fmt.Sprintf("(declare-fun %s %s)", name, sig))
 }
 
+func (f *FuncVC) flushDefs() {
+	ds := f.pendingDefs
+	f.pendingDefs = nil
+	for _, d := range ds {
+		f.cmds = append(f.cmds, d)
+	}
+}
+
 func (f *FuncVC) emit(cmd string) {
+	if len(f.pendingDefs) > 0 && !f.noDefine {
+		f.flushDefs()
+	}
 	if len(f.pendingMarks) > 0 && !f.noDefine {
 		ms := f.pendingMarks
 		f.pendingMarks = nil
